@@ -84,6 +84,38 @@ def gen_scenario(seed, family="mixed"):
             u0.append(["shutdown", False, False])
         return {"kind": "plain", "max_workers": mw, "timeout": 5, "tasks": tasks, "family": family, "users": [u0],
                 "sched": {"p_timeout": rnd.choice([0.3, 0.6]), "p_crash": rnd.choice([0.0, 0.01]), "max_crashes": 1}}
+    if family == "concurrent":
+        # several threads submitting (and cancelling) at the same time on one plain executor
+        mw = rnd.choice([1, 2, 3])
+        nu = rnd.choice([2, 2, 3])
+        nt = rnd.randint(nu, 7)
+        tasks = [{"body": rnd.choice(["ok", "ok", "ok", "raise"])} for _ in range(nt)]
+        users = [[["create"]]] + [[] for _ in range(nu - 1)]
+        for k in range(nt):
+            u = users[k % nu]
+            u.append(["submit", k])
+            if rnd.random() < 0.15:
+                u.append(["cancel", rnd.randrange(k + 1)])
+        return {"kind": "plain", "max_workers": mw, "timeout": rnd.choice([None, None, 5]), "tasks": tasks, "family": family,
+                "users": users, "sched": {"p_timeout": 0.1, "p_crash": 0.0, "max_crashes": 0}}
+    if family == "saturateleak":
+        # a worker leaves through the memory-leak protection, then long tasks must still get a full pool
+        mw = rnd.choice([1, 2, 2, 3])
+        nt = mw + rnd.randint(0, 2)
+        pre = rnd.randint(2, 4)
+        tasks = [{"body": "ok", "quick": True}] * pre + [{"body": "ok"}] * nt
+        u0 = [["create"]] + [["submit", k] for k in range(pre)] + [["idle"]] * rnd.choice([15, 30]) + \
+             [["submit", k] for k in range(pre, pre + nt)]
+        return {"kind": "plain", "max_workers": mw, "timeout": None, "tasks": tasks, "family": "saturate", "long_from": pre,
+                "leak_after": [0], "users": [u0], "sched": {"p_timeout": 0.0, "p_crash": 0.0, "max_crashes": 0}}
+    if family == "reusesaturate":
+        # a reusable executor created small, grown, then given a burst of long tasks
+        small, big = rnd.choice([(1, 3), (1, 4), (2, 4), (1, 2)])
+        tasks = [{"body": "ok"}] * big
+        u0 = [["reusable", {"max_workers": small, "timeout": None}], ["reusable", {"max_workers": big, "timeout": None}]]
+        u0 += [["submit", k] for k in range(big)]
+        return {"kind": "reusable", "max_workers": big, "timeout": None, "cpu_count": 2, "tasks": tasks, "family": "saturate",
+                "users": [u0], "sched": {"p_timeout": 0.0, "p_crash": 0.0, "max_crashes": 0}}
     if family == "saturate":
         mw = rnd.choice([1, 2, 3])
         nt = mw + rnd.randint(0, 3)
